@@ -926,8 +926,8 @@ func (o Object) Equals(with Item) bool {
 				return nil
 			}
 		}
-		if w.URL != nil {
-			if o.URL == nil {
+		if !IsNil(w.URL) {
+			if IsNil(o.URL) {
 				result = false
 				return nil
 			}
